@@ -289,12 +289,18 @@ def judge(case):
                 lines = str(cls(incs)).split('\n')
                 if not lines[0].startswith('//') or lines[1:-1] != [f'#include {open_}{i}{close}' for i in incs]:
                     bad('includes', f'{lines}')
-            for enc in RET_TYPES + PARAM_KINDS:
+            all_types = [{'fqn': fq, 'root': root, 'targ': targ, 'post': post, 'const': const, 'default': dflt}
+                         for fq in (['T'], ['N', 'T']) for root in (False, True) for targ in (None, ['A'], ['N', 'T'])
+                         for post in ('', '&', '*') for const in (False, True)
+                         for dflt in (None, '', '0', '{}', '""', 'nullptr')]
+            for enc in RET_TYPES + PARAM_KINDS + all_types:
                 mv = G.MemberVariable(mk_type(enc), 'm_x')
                 if tokens(str(mv)) != type_tokens(enc) + ['m_x', ';']:
                     bad('member-variable', str(mv))
                 par = G.Param(mk_type(enc), 'p')
                 want_decl = type_tokens(enc) + ['p'] + (['='] + tokens(enc['default']) if enc.get('default') else [])
+                if ' = ' in par.as_def or (not enc.get('default') and '=' in par.as_decl):
+                    bad('param-spurious-initialiser', f'{par.as_decl!r} / {par.as_def!r}')
                 if tokens(par.as_decl) != want_decl or tokens(par.as_def) != type_tokens(enc) + ['p']:
                     bad('param', f'{par.as_decl!r} / {par.as_def!r}')
                 try:
@@ -323,7 +329,7 @@ def function_cases():
 
 
 def other_cases():
-    mils = [[], ['m_a(1)'], ['m_a(1)', 'm_b{a0}']]
+    mils = [[], ['m_a(1)'], ['m_a(1)', 'm_b{a0}'], ['m_a(1)', 'm_b{2}', 'm_c("x")']]
     for explicit, params, init, mil, contents, scope in itertools.product(
             (False, True), list(param_lists()), ('', 'default', 'delete'), mils, CONTENTS, ('struct', 'class', None)):
         yield {'kind': 'constructor', 'explicit': explicit, 'params': params, 'init': init, 'mil': mil,
@@ -331,7 +337,7 @@ def other_cases():
     for override, init, contents, scope in itertools.product((False, True), ('', 'default', 'delete'), CONTENTS,
                                                              ('struct', 'class', None)):
         yield {'kind': 'destructor', 'override': override, 'init': init, 'contents': contents, 'scope': scope}
-    bodies = [None, [], ['int x;'], ['struct Q', '{', '};', '', '    indented();']]
+    bodies = [None, [], ['int x;'], ['struct Q', '{', '};', '', '    indented();'], ['', 'int after_blank;'], ['']]
     for n in range(0, 4):
         for ids in itertools.product(['A', 'b_1', 'C9'], repeat=n):
             for body in bodies:
@@ -340,7 +346,7 @@ def other_cases():
     for which, name, body, later in itertools.product(('struct', 'class'), ('S', 'My_Class9'), bodies, (False, True)):
         yield {'kind': 'struct', 'which': which, 'name': name, 'contents': body, 'set_later': later}
     for spec in ('PUBLIC', 'PROTECTED', 'PRIVATE', 'ANONYMOUS'):
-        for body in ([], ['int x;'], ['a();', '', '  b();']):
+        for body in ([], ['int x;'], ['a();', '', '  b();'], ['', 'after_blank();'], ['x;', '']):
             yield {'kind': 'section', 'spec': spec, 'contents': body}
     for incs in ([], ['string'], ['dzn/pump.hh', 'a/b.h', 'x']):
         yield {'kind': 'misc', 'includes': incs}
